@@ -1005,7 +1005,7 @@ func cloneEmits(m map[int]string) map[int]string {
 
 type Item struct {
 	Dir   string // package dir relative to repo
-	Kind  string // const | func | expr | cond | assign | occurs
+	Kind  string // const | func | expr | cond | assign | occurs | table | strarg | tags (literals.go)
 	Recv  string // receiver type name ("" for plain functions)
 	Func  string
 	Local string // expr: name of the local whose initialiser is taken; assign: printed target, e.g. "id[6]"
@@ -1118,6 +1118,9 @@ func translate(p *pkg, it Item) (out string, err error) {
 			return "", fmt.Errorf("constant %s not found or not an integer constant", it.Func)
 		}
 		return fmt.Sprintf("/-- Go constant `%s` in %s -/\ndef %s : Int := %s\n", it.Func, it.Dir, it.Name, v.ExactString()), nil
+	}
+	if it.Kind == "table" || it.Kind == "strarg" || it.Kind == "tags" {
+		return translateLiteral(p, it) // literals.go
 	}
 	fd := findFunc(p, it.Recv, it.Func)
 	if fd == nil || fd.Body == nil {
